@@ -596,7 +596,7 @@ reg(Prop("C15", g_c15, {"value": "C15.a", "count_extra": "C15.a", "count_missing
 
 # ----------------------------------------------------------------------------- C16 thread safety
 P_C16 = gen.profile(**{**gen.SCHED, "n_stmts": (1, 5), "p_flag": 0.1, "n_params": (1, 2), "p_default": 0.3, "p_setup": 0.0,
-                       "w_nested": 1.5, "max_depth": 1, "p_async": 0.0, "all_return": False, "ret_shapes": [("tuple", 2), ("single", 1)]})
+                       "w_nested": 1.5, "max_depth": 1, "p_async": 0.2, "all_return": False, "ret_shapes": [("tuple", 2), ("single", 1)]})
 
 
 def g_c16(d: Draw) -> dict:
